@@ -250,6 +250,7 @@ class Walker:
         self.geo = Geo()
         self.cart = set(edges_msg["cart"])
         self.edge = {e["fn"]: e for e in edges_msg["edges"]}
+        self.uses = {k: set(v) for k, v in edges_msg["uses"].items()}
         z6 = np.zeros(6)
 
         def eci2ntw(x, c):
@@ -336,10 +337,13 @@ class Walker:
             rel_eci = _sph2cart(x, 1.0)[:3]
         else:
             return False
-        if rel_ecef is None:
-            rel_ecef = self.T.eci2ecef(_six(rel_eci), c.date)[:3]
-        if rel_eci is None:
-            rel_eci = self.T.ecef2eci(_six(rel_ecef), c.date)[:3]
+        try:                # the rotation between ECI and ECEF is taken from the real code (diagnosis only)
+            if rel_ecef is None:
+                rel_ecef = self.T.eci2ecef(_six(rel_eci), c.date)[:3]
+            if rel_eci is None:
+                rel_eci = self.T.ecef2eci(_six(rel_ecef), c.date)[:3]
+        except Exception:  # noqa: BLE001
+            return False
         r = float(np.linalg.norm(rel_ecef))
         if not r > 1e-9:
             return True
@@ -527,6 +531,7 @@ def replay_walks(ctx: Ctx, res, V: Viol, rng: random.Random) -> None:
     walks.sort(key=lambda w: (len(w["walk"]), w["start"], w["walk"]))
     ctxs = {}
     failing = {}        # (kind, where, walk tuple) -> first detail
+    decided = {"pos": set(), "vel": set()}   # walks with at least one decided execution, per compared quantity
     n_run = n_sing = 0
     for wi, w in enumerate(walks):
         native = pts[w["start"]]
@@ -559,6 +564,9 @@ def replay_walks(ctx: Ctx, res, V: Viol, rng: random.Random) -> None:
                 n_sing += 1
                 ctx.case(case_key, nontrivial=False)
                 continue
+            decided["pos"].add(tuple(w["walk"]))
+            if w["vel"]:
+                decided["vel"].add(tuple(w["walk"]))
             ctx.case(case_key, nontrivial=True,
                      sample={"walk": w["walk"], "start": w["start"], "date": when.isoformat(),
                              "site_lla": list(SITES[si]), "point": group[0].tolist()} if n_run % 977 == 1 else None)
@@ -578,22 +586,35 @@ def replay_walks(ctx: Ctx, res, V: Viol, rng: random.Random) -> None:
                     "nonfinite": "conversion returns a non-finite value away from any angle singularity",
                     "exception": "conversion raises away from any angle singularity"}[kind]
             V.add(f"{kind}:{where}", f"{where}: {what}", rp)
-    # closed-walk failures: blame edges greedily (the edge contained in most failing walks first), one signature per edge
+    # closed-walk failures: name the most suspicious conversion first (spectrum-based: Ochiai score over the functions a
+    # walk calls directly or indirectly, FrameGraph!Uses), then explain the remaining failing walks the same way
+    def called(walk):
+        out = set(walk)
+        for fn in walk:
+            out |= wk.uses.get(fn, set())
+        return out
+
     for kind in ("pos", "vel"):
         rest = {k[2]: rp for k, rp in failing.items() if k[1] == "walk" and k[0] == kind}
-        if rest:
-            ctx.extra[f"failing_closed_walks_{kind}"] = len(rest)
+        if not rest:
+            continue
+        ctx.extra[f"failing_closed_walks_{kind}"] = len(rest)
+        passed = {}
+        for wt in decided[kind] - set(rest):
+            for fn in called(wt):
+                passed[fn] = passed.get(fn, 0) + 1
         while rest:
-            count = {}
+            failed = {}
             for walk in rest:
-                for fn in set(walk):
-                    count[fn] = count.get(fn, 0) + 1
-            suspect = min(count, key=lambda fn: (-count[fn], fn))
-            mine = sorted((w for w in rest if suspect in w), key=lambda w: (len(w), w))
+                for fn in called(walk):
+                    failed[fn] = failed.get(fn, 0) + 1
+            suspect = min(failed, key=lambda fn: (-failed[fn] / math.sqrt(len(rest) * (failed[fn] + passed.get(fn, 0))),
+                                                  len(wk.uses.get(fn, ())), fn))
+            mine = sorted((w for w in rest if suspect in called(w)), key=lambda w: (len(w), w))
+            det = rest[mine[0]]["detail"]
             V.add(f"walk-not-closed:{kind}:{suspect}",
                   f"{len(mine)} closed walk(s) through {suspect} do not return the start {'position' if kind == 'pos' else 'velocity'}; "
-                  f"shortest: {' > '.join(mine[0])} (error {rest[mine[0]]['detail'].get('err_km', rest[mine[0]]['detail'].get('err_kmps')):.3e})",
-                  rest[mine[0]])
+                  f"shortest: {' > '.join(mine[0])} (error {det.get('err_km', det.get('err_kmps')):.3e})", rest[mine[0]])
             for w in mine:
                 del rest[w]
     ctx.traces_validated += n_run - n_sing
@@ -714,11 +735,15 @@ def check_clock(ctx: Ctx, res, recs, V: Viol, rng: random.Random) -> None:
                      sample={"transition": r, "kinds": ks} if "leapsecond" in ks and r["dir"] == 0 and not r["t0"].endswith("500000") else None)
     nrec = sum(len(x) for x in recs)
     bad_days = set()
-    for inv, states in res.invariant_violations:
-        txt = "\n".join(states)
-        m = re.findall(r"dayNo = (\d+)", txt)
-        if inv != "ContinuityOK" or not m:
-            raise tlc.MachineryError(f"EarthClock.tla invariant {inv} violated at spec level:\n{txt[-800:]}")
+    for inv, _states in res.invariant_violations:
+        if inv != "ContinuityOK":
+            raise tlc.MachineryError(f"EarthClock.tla invariant {inv} violated at spec level")
+    # every rejected day: the last state of each counterexample ("... violated by the initial state" has no State header)
+    for seg in re.split(r"Error: Invariant ContinuityOK is violated", res.stdout)[1:]:
+        seg = re.split(r"^(?:Error: Invariant|\d+ states generated|Finished in|Progress\()", seg, flags=re.M)[0]
+        m = re.findall(r"dayNo = (\d+)", seg)
+        if not m:
+            raise tlc.MachineryError("cannot read the rejected day from TLC's counterexample:\n" + seg[-600:])
         bad_days.add(int(m[-1]))
     if res.property_violations:
         raise tlc.MachineryError(f"EarthClock.tla property violated at spec level: {res.property_violations[0][0]}")
@@ -828,7 +853,7 @@ def run(ctx: Ctx):
     recs, _tab = measure_transitions(ctx, rng, V)
     d = ctx.sub("clock")
     (d / "records.json").write_text(json.dumps([[{k: r[k] for k in ("y", "m", "d", "s", "adv", "smooth", "dat")} for r in day] for day in recs]))
-    f_clk = pool.submit(tlc.run_tlc, "EarthClock", "EarthClock.cfg", d, workers=2, cont=True, env={"RECORDS_FILE": "records.json"}, timeout=1500)
+    f_clk = pool.submit(tlc.run_tlc, "EarthClock", "EarthClock.cfg", d, workers=1, cont=True, env={"RECORDS_FILE": "records.json"}, timeout=1500)
 
     res = tlc.require_ok(f_lat.result(), "Lattice3")
     ctx.add_tlc(res, "Lattice3.tla exhaustive: algebraic identities + expected integer matrices")
